@@ -23,6 +23,7 @@ CLAIMS = {
  'C12': 'Steps for open_flow in all six fee-asset x flow-asset configurations, expand_flow and close_flow (native/cw20, with and without expansion), with symbolic sender for close: funded == received, fee to the collector, refund = funded - claimed to the creator, authorisation. Four defects are carved out as known findings.',
  'C13': 'calculate_weight function-level (>= amount, monotone in amount and duration by lemma chaining, range error); GLOBAL = sum of address weights per step and over the history open;expand;close; claim vs rewards-query differential for 2-3 unclaimed epochs, 1-2 flows, expansions; double claim; per-claim bounds; share sum <= 100% over a history with the snapshot before/after a close.',
  'C15': 'assert_max_spread (spread and belief-price clauses, default and cap) and the pair slippage-tolerance test with fully symbolic arguments, the arguments swap passes to the slippage check, and the router: AssertMinimumReceive appended last with the receiver balance, and Ok <=> balance delta >= minimum.',
+ 'C18': 'instantiate and every config-writing path of pair, trio, vault, fee distributor, bonding contract and fee collector with fully symbolic numeric parameters: an accepted call leaves fee triples valid, amplification / grace period / epoch duration / growth rate / take rate within their bounds, the grace period non-decreasing; a rejected one writes nothing. The token-factory burn-fee rule is decided over enumerated denom shapes (byte-string code).',
  'C20': 'Every path of the real epoch-manager create_epoch entry point from an arbitrary stored epoch/config with symbolic block time, 0..3 hooks: accepted calls are never early and advance id/start by exactly one step; permissionless.',
 }
 REASONS = {}
